@@ -190,6 +190,8 @@ def run_job(job, work, tier):
     if job.get("unwind"):
         cmd += ["--unwind", str(job["unwind_thorough"] if tier == "thorough" and job.get("unwind_thorough") else job["unwind"]),
                 "--unwinding-assertions"]
+    if job.get("cbmc_unwindset"):
+        cmd += ["--unwindset", job["cbmc_unwindset"], "--unwinding-assertions"]
     if job.get("object_bits"):
         cmd += ["--object-bits", str(job["object_bits"])]
     cmd += job.get("flags", [])
@@ -230,9 +232,14 @@ def run_job(job, work, tier):
         return jr
     jr.canary_ok = all(c["status"] == "FAILURE" for c in canaries)
     unwind_fail = [r for r in failed if "unwinding assertion" in (r["description"] or "") or "unwound" in (r["description"] or "")]
-    jr.loop_obl = len([r for r in others if "loop_invariant" in (r["property"] or "") or "invariant" in (r["description"] or "").lower()])
-    if job.get("loop_contracts") and job.get("expect_loops", 1) and jr.loop_obl == 0:
-        jr.msg = "loop contracts requested but no loop invariant obligations were generated (silently dropped?)"
+    loops_seen = set()
+    for r in others:
+        m = re.search(r"Check invariant after step for loop (\S+)", r["description"] or "")
+        if m:
+            loops_seen.add(m.group(1))
+    jr.loop_obl = len(loops_seen)
+    if job.get("loop_contracts") and jr.loop_obl < job.get("expect_loops", 1):
+        jr.msg = "loop contracts: %d loops carry invariant obligations, spec expects %d (contract silently dropped?)" % (jr.loop_obl, job.get("expect_loops", 1))
         return jr
     if len(others) < job.get("min_obligations", 1):
         jr.msg = "only %d obligations generated (expected at least %d)" % (len(others), job.get("min_obligations", 1))
